@@ -167,9 +167,17 @@ class IntSymArray(SymArray):
     # ---- result typing: integer (op) integer stays an integer array, anything involving a float operand or a true
     #      division is a float array (a plain SymArray: assignments into it do not truncate); storing a float result
     #      into an integer array in place is the casting error numpy raises
+    bits = None      # None: int64 (never wraps within the bounds used); 8/16/32: fixed-width two's-complement wrap-around
+
+    def __array_finalize__(self, obj):
+        if obj is not None and getattr(obj, 'bits', None) is not None:
+            self.bits = obj.bits
+
     def __array_ufunc__(self, ufunc, method, *inputs, out=None, **kw):
         args = tuple(i.view(SymArray) if isinstance(i, IntSymArray) else i for i in inputs)
         int_like = ufunc in _INT_PRESERVING and all(_int_operand(i) for i in inputs)
+        widths = [i.bits for i in inputs if isinstance(i, IntSymArray)]
+        width = None if (not widths or any(w is None for w in widths)) else max(widths)
         if out is not None:
             if any(isinstance(o, IntSymArray) for o in out) and not int_like and ufunc not in _COMPARISONS:
                 raise TypeError("Cannot cast ufunc '%s' output from dtype('float64') to dtype('int64') with casting rule "
@@ -180,6 +188,15 @@ class IntSymArray(SymArray):
             if res.ndim == 0:
                 return res[()]
             res = res.view(IntSymArray if int_like else SymArray)
+            if int_like and width is not None and ufunc not in (np.maximum, np.minimum, np.sign):
+                # narrow integer arithmetic wraps around (numpy computes in the array's own dtype)
+                half, full = 2 ** (width - 1), 2 ** width
+                flat = np.empty(res.shape, dtype=object)
+                for idx in np.ndindex(res.shape):
+                    v = res[idx]
+                    flat[idx] = ((v + half) % full) - half
+                res = flat.view(IntSymArray)
+                res.bits = width
         elif out is not None and isinstance(res, np.ndarray):
             return out[0] if len(out) == 1 else out
         return res
@@ -212,12 +229,15 @@ def _int_operand(v):
     return False
 
 
-def int_array(values):
-    """an integer-dtype input array of solver integers (harness side)"""
+def int_array(values, bits=None):
+    """an integer-dtype input array of solver integers (harness side); bits=8/16/32 models a narrow dtype whose arithmetic wraps"""
     a = np.empty(len(values), dtype=object)
     for i, v in enumerate(values):
         a[i] = v
-    return a.view(IntSymArray)
+    a = a.view(IntSymArray)
+    if bits is not None:
+        a.bits = bits
+    return a
 
 
 def obj_full(shape, value):
@@ -342,7 +362,25 @@ class RandomStub(object):
     rand = lambda self, *shape: self._draw('uniform', shape)  # noqa: E731
 
     def seed(self, *a, **k):
-        self.state = ['seed%s' % (a[0] if a else ''), 0]
+        v = a[0] if a else k.get('seed', '')
+        if isinstance(v, (SymInt, SymReal)):
+            v = v.t.sexpr() if v.c is None else v.c      # streams seeded with the same term are the same stream
+        self.state = ['seed[%s]' % (v,), 0]
+
+    def randint(self, low, high=None, size=None, dtype=int):
+        if self.concrete is not None:
+            return self.concrete.randint(low, high, size)
+        if size is not None:
+            raise PathAbort("np.random.randint stub: size unsupported", kind='engine-gap')
+        if high is None:
+            low, high = 0, low
+        _used('np.random.randint (fork-aware stream model: one solver integer per draw)')
+        sid, pos = self.state
+        v = z3.Int("rngint_%s_%d" % (sid, pos))
+        core.ctx().add(z3.And(v >= int(low), v < int(high)))
+        self.draws.append((sid, pos, 'randint', ()))
+        self.state[1] = pos + 1
+        return SymInt(v)
 
     def fork_state(self):
         return list(self.state)
@@ -617,6 +655,28 @@ class NPProxy(object):
         for i, wv in zip(idx, w_.flat):
             out[i] = out[i] + wv
         return out
+
+    def isclose(self, a, b, rtol=1e-05, atol=1e-08, equal_nan=False):
+        if not has_sym(a, b):
+            return real_np.isclose(a, b, rtol=rtol, atol=atol, equal_nan=equal_nan)
+        _used('np.isclose / np.allclose on object arrays (|a-b| <= atol + rtol*|b|, by comparison forks)')
+        a1, b1 = np.broadcast_arrays(np.asarray(a, dtype=object), np.asarray(b, dtype=object))
+        out = real_np.zeros(a1.shape, dtype=bool)
+        for idx in np.ndindex(a1.shape):
+            x, y = a1[idx], b1[idx]
+            xs = isinstance(x, (float, np.floating)) and not math.isfinite(x)
+            ys = isinstance(y, (float, np.floating)) and not math.isfinite(y)
+            if xs or ys:
+                out[idx] = bool(real_np.isclose(float(x) if xs else 0.0, float(y) if ys else 0.0, rtol, atol, equal_nan)) if (xs and ys) else False
+                continue
+            lx, ly = lift(x), lift(y)
+            out[idx] = bool(abs(lx - ly) <= lift(atol) + lift(rtol) * abs(ly))
+        return out if out.ndim else bool(out[()])
+
+    def allclose(self, a, b, rtol=1e-05, atol=1e-08, equal_nan=False):
+        if not has_sym(a, b):
+            return real_np.allclose(a, b, rtol=rtol, atol=atol, equal_nan=equal_nan)
+        return bool(real_np.all(self.isclose(a, b, rtol=rtol, atol=atol, equal_nan=equal_nan)))
 
     def fmod(self, x1, x2, *args, **kw):
         if not has_sym(x1, x2) or args or kw:
@@ -1292,13 +1352,24 @@ class InlinePool(object):
     log = []   # (pool id, job index, worker)
     npools = 0
 
-    def __init__(self, processes=None, **kw):
+    def __init__(self, processes=None, initializer=None, initargs=(), **kw):
         _used('multiprocessing.Pool (inline, order-preserving starmap, forked RNG state per worker)')
         self.processes = int(processes or 1)
         InlinePool.npools += 1
         self.id = InlinePool.npools
         self.worker_states = [RNG.fork_state() for _ in range(self.processes)]
         self.used_workers = 0
+        if initializer is not None:
+            # every worker runs the initializer once, in its own (forked) state
+            _used('multiprocessing.Pool(initializer=...) run once per worker in the worker state')
+            for w in range(self.processes):
+                parent_state = RNG.state
+                RNG.state = self.worker_states[w]
+                try:
+                    initializer(*initargs)
+                    self.worker_states[w] = RNG.state
+                finally:
+                    RNG.state = parent_state
 
     def starmap(self, func, iterable, chunksize=None):
         out = []
